@@ -3,7 +3,7 @@
 A descriptor is JSON-able:
   {'dim': d, 'p': [p_1..p_d], 'n0': [n_1..n_d], 'disparity': k or None (inf), 'truncate': bool,
    'bdspecs': None | list of [axis, side], 'history': [ {level: [[cell], ...]}, ... ]  (explicit)  or
-   'hseed': int, 'steps': int, 'style': 'random'|'corner'|'isolated'|'multilevel'|'drill'  (generated against the live space),
+   'hseed': int, 'steps': int, 'style': 'random'|'corner'|'isolated'|'multilevel'|'drill'|'interface'  (generated against the live space),
    'container': 'set'|'list'|'tuple'|'mixed'}
 """
 import numpy as np
@@ -49,6 +49,25 @@ def random_marks(hs, rng, style='random', max_levels=4, frac=0.3):
             l = L - 1
             if l not in levels: return None
             marks[l] = list(act[l])
+    elif style == 'interface':
+        # refine a slab of the coarse mesh, then on every further step the cells of the finest level next to the *interior* boundary of
+        # its refinement region: Omega_{l+1} then shares a piece of its boundary with Omega_l inside the domain, so coarse functions reach
+        # the level-l region only through cells that are no longer active on level l
+        if L == 1:
+            ax = int(rng.integers(0, len(act[0][0]))); n = max(c[ax] for c in act[0]) + 1
+            lo = rng.random() < 0.5; k = int(rng.integers(1, n)) if n > 1 else 1
+            marks[0] = [c for c in act[0] if (c[ax] < k if lo else c[ax] >= n - k)]
+        else:
+            l = L - 1
+            if l not in levels: return None
+            A = set(act[l]); nb = tuple(int(kv.numspans) for kv in hs.knotvectors(l)); w = int(rng.integers(1, 3))
+            def near(c):
+                for d in range(len(c)):
+                    for o in range(-w, w + 1):
+                        e = c[:d] + (c[d] + o,) + c[d + 1:]
+                        if o and 0 <= e[d] < nb[d] and e not in A: return True
+                return False
+            marks[l] = [c for c in act[l] if near(c)] or [act[l][0]]
     elif style == 'multilevel':
         for l in levels:
             if rng.random() < 0.7:
@@ -145,7 +164,7 @@ def _maybe_live(hs, m, rng, kind):
         if set(map(tuple, m[l])) == set(map(tuple, live)) and (kind == 'live' or rng.random() < 0.5):
             m[l] = live
 
-def random_desc(rng, dims=(1, 2), pmax=3, n0max=4, styles=('random', 'corner', 'isolated', 'multilevel', 'drill'), max_steps=4, max_levels=4,
+def random_desc(rng, dims=(1, 2), pmax=3, n0max=4, styles=('random', 'corner', 'isolated', 'multilevel', 'drill', 'interface'), max_steps=4, max_levels=4,
                 bd_choices=('none', 'empty', 'one', 'all')):
     dim = int(rng.choice(dims))
     p = [int(rng.integers(1, pmax + 1)) for _ in range(dim)]
@@ -156,7 +175,9 @@ def random_desc(rng, dims=(1, 2), pmax=3, n0max=4, styles=('random', 'corner', '
     elif bk == 'empty': bd = []
     elif bk == 'one': bd = [[int(rng.integers(0, dim)), int(rng.integers(0, 2))]]
     else: bd = [[a, s] for a in range(dim) for s in (0, 1)]
+    style = str(rng.choice(styles))
+    if style == 'interface': n0 = [max(n, 3) + int(rng.integers(0, 2)) for n in n0]     # a slab and its complement both need room for a function
     return {'dim': dim, 'p': p, 'n0': n0, 'disparity': disp, 'truncate': bool(rng.integers(0, 2)), 'bdspecs': bd,
-            'hseed': int(rng.integers(0, 2 ** 31)), 'steps': int(rng.integers(1, max_steps + 1)), 'style': str(rng.choice(styles)),
+            'hseed': int(rng.integers(0, 2 ** 31)), 'steps': int(rng.integers(1, max_steps + 1)), 'style': style,
             'container': str(rng.choice(['set', 'list', 'tuple', 'mixed', 'live'])), 'max_levels': max_levels,
             'poke': bool(rng.random() < 0.5)}
